@@ -1028,6 +1028,19 @@ def tampercs(rng):
         ops.append({"op": "send", "from": s_, "to": d_, "amt": rng.choice(["big", "justabove", "big"])})
         npay += 1
     ops.append({"op": "deliver_all"})
+    if rng.random() < 0.25:
+        # a forged update_fulfill_htlc instead: a preimage that does not hash to the HTLC's payment hash (C03: a payment
+        # is reported sent only for the real preimage; C05 / C01: the forgery is refused, nothing is stored)
+        s_, d_ = rng.choice([(a, b), (b, a)])
+        ops += [{"op": "send", "from": s_, "to": d_, "amt": rng.choice(["big", "justabove", "dust"])}, {"op": "deliver_all"},
+                {"op": "claim", "pay": npay}, {"op": "tamper_fulfill", "from": d_, "to": s_}]
+        npay += 1
+        ops += _deliveries(rng, [(0, 1), (1, 0)], rng.randrange(0, 5))
+        ops.append({"op": "deliver_all"})
+        for k in range(npay - 1):
+            ops += [{"op": "claim" if rng.random() < 0.5 else "fail", "pay": k}, {"op": "deliver_all"}]
+        ops += [{"op": "deliver_all"}, {"op": "proj", "final": True}]
+        return {"cfg": cfg, "ops": ops}
     # new ones, signed for the first time by the forged commitment_signed (sent by a)
     for _ in range(rng.choice([1, 1, 2, 3])):
         ops.append({"op": "send", "from": a, "to": b, "amt": rng.choice(["big", "justabove", "big", "dust"])})
